@@ -29,7 +29,7 @@ Proof. exact C07Smb.cmd_safe_total. Qed.
 Print Assumptions C07_smb_command_generic.
 
 (* on the tree as it is now (regenerated descriptions): every structure is accepted by the analysis or is on
-   the committed list of structures it cannot follow (Model/C07Known.v, 16 names) *)
+   the committed list of structures it cannot follow (Model/C07Known.v, 14 names) *)
 Theorem C07_smb_commands_cover :
   forallb (fun c => SmbSafe.cmd_safe c || SmbAnalysis.string_mem (SmbLayout.cd_name c) C07Known.c07_unproved)
           SmbLayouts.all_cmds = true.
@@ -42,8 +42,8 @@ Theorem C07_smb_commands : forall c, In c SmbLayouts.all_cmds ->
 Proof. exact C07Proofs.smb_cmd_total. Qed.
 Print Assumptions C07_smb_commands.
 
-(* non-vacuity: 99 of the 115 structures are proved total today *)
-Example C07_smb_proved_count : List.length (filter SmbSafe.cmd_safe SmbLayouts.all_cmds) = 99%nat.
+(* non-vacuity: 101 of the 115 structures are proved total today *)
+Example C07_smb_proved_count : List.length (filter SmbSafe.cmd_safe SmbLayouts.all_cmds) = 101%nat.
 Proof. exact C07Proofs.smb_proved_count. Qed.
 
 (* Message.Unmarshal (header, factory dispatch, command): a panic is possible only inside the Unmarshal of
